@@ -492,9 +492,17 @@ impl<I: Interner> RenderAsRust<I> for FnDefDatum<I> {
         let s = &s.add_debrujin_index(None);
         let bound_datum = self.binders.skip_binders();
 
+        // variances
+        let interner = s.db().interner();
+        let variances = s.db().unification_database().fn_def_variance(self.id);
+        write_variances(f, interner, &variances)?;
+
         // declaration
-        // fn foo<T>(arg: u32, arg2: T) -> Result<T> where T: Bar
-        // ^^^^^^
+        // unsafe fn foo<T>(arg: u32, arg2: T) -> Result<T> where T: Bar
+        // ^^^^^^^^^^^^^
+        if let chalk_ir::Safety::Unsafe = self.sig.safety {
+            write!(f, "unsafe ")?;
+        }
         write!(f, "fn {}", s.db().fn_def_name(self.id))?;
 
         // binders
@@ -515,6 +523,9 @@ impl<I: Interner> RenderAsRust<I> for FnDefDatum<I> {
                 .iter()
                 .enumerate()
                 .map(|(idx, arg)| format!("arg_{}: {}", idx, arg.display(s)))
+                .chain(self.sig.variadic.then(|| {
+                    format!("arg_{}: ...", inputs_and_output.argument_types.len())
+                }))
                 .format(", ");
 
             write!(f, "({})", arguments)?;
